@@ -46,7 +46,9 @@ TRUSTED = [
 ]
 ASSUMPTIONS = [
     "workloads: pure task programs with int arguments and nested-list results (values have Expression subvalues, no "
-    "File/Handle values), every job records provenance, no tags/context",
+    "File/Handle values), every job records provenance, no tags/context; plus the `noprov` workload: shallow parent over "
+    "prov=False children, every commit of its record_call_node as crash point / fault position, then EACH child edited "
+    "on its own copy of the database",
     "process death = everything not committed is lost; one process at a time per database",
     "transient failure = ONE OperationalError raised instead of a writing commit (quick tier) or before any statement "
     "(thorough tier), retried with db_retries_backoff = 0",
@@ -143,9 +145,25 @@ class Workload:
     def reset(self):
         self.prog.versions = list(self.base_versions)
 
-    def edit_target(self):
-        # the deepest task: its edit must propagate through every cached ancestor
-        return self.prog.n - 1
+    def edit_targets(self):
+        # the deepest task: its edit must propagate through every cached ancestor; for the prov=False workload every
+        # child in turn (each on its own copy of the database)
+        if isinstance(self.prog, ctl_db.NoProvProgram):
+            return list(range(1, self.prog.n))
+        return [self.prog.n - 1]
+
+    def later_steps(self, c):
+        """('same', repo) then one ('edited', repo) per edit target; several targets -> each on a branch of repo 0"""
+        yield "same", 0
+        targets = self.edit_targets()
+        for t in targets:
+            self.reset()
+            self.prog.edit(t)
+            if len(targets) == 1:
+                yield "edited", 0
+            else:
+                c.branch(0, t)
+                yield f"edited-{t}", t
 
 
 def task_gap(path):
@@ -180,10 +198,8 @@ def crash_case(ctx, w: Workload, k: int, cases):
     c.adopt(0, path)
     # recovery with the same program, then with an edited one
     outcomes = []
-    for step in ("same", "edited"):
-        if step == "edited":
-            prog.edit(w.edit_target())
-        res, _, _ = c.run(0)
+    for step, r in w.later_steps(c):
+        res, _, _ = c.run(r)
         exp = prog.expected_main()
         outcomes.append(res if isinstance(res, str) else ("ok" if res == exp else "WRONG"))
         if isinstance(res, str):
@@ -195,7 +211,7 @@ def crash_case(ctx, w: Workload, k: int, cases):
         if res != exp:
             ctx.violation(SIG["stale"][0], SIG["stale"][1], dict(label, step=step), expected=repr(exp)[:300],
                           actual=repr(res)[:300], kind="crash_point")
-        fk2 = ctl_db.fk_violations(path)
+        fk2 = ctl_db.fk_violations(c.repos[r])
         if fk2:
             ctx.violation(SIG["fk"][0], SIG["fk"][1], dict(label, where="after recovery run " + step), expected="[]",
                           actual=repr(fk2[:4]), kind="crash_point")
@@ -242,10 +258,8 @@ def fault_case(ctx, w: Workload, k: int, mode, cases):
         ctx.violation(sig[0], sig[1], dict(label, where="after the retried run", foreign_key_check=repr(fkv[:4])),
                       expected="[]", actual=repr(fkv[:4]), kind="fault")
     # later runs
-    for step in ("same", "edited"):
-        if step == "edited":
-            prog.edit(w.edit_target())
-        res2, _, _ = c.run(0)
+    for step, r in w.later_steps(c):
+        res2, _, _ = c.run(r)
         exp2 = prog.expected_main()
         outcomes.append(res2 if isinstance(res2, str) else ("ok" if res2 == exp2 else "WRONG"))
         if isinstance(res2, str):
@@ -283,6 +297,16 @@ def run(ctx):
             w = ctl_db.guarded(ctx, f"gen{i}", lambda i=i: Workload(ctx, env, flags, ctl_db.gen_program(rng, ns="gc22g"), f"gen{i}"))
             if w is not None:
                 workloads.append(w)
+        wnp = ctl_db.guarded(ctx, "noprov", lambda: Workload(ctx, env, flags, ctl_db.NoProvProgram(ns="gc22np"), "noprov"))
+        if wnp is not None:
+            # every commit of the shallow parent's record_call_node (which records its prov=False children's Task
+            # values itself, one commit each, between the CallNode and its subtree rows) and the one after it
+            cases.append(wnp.clean)
+            rng_np = ctl_db.commit_range_of(wnp.clean, "record_call_node", 0) or (1, 0)
+            for k in range(rng_np[0], min(rng_np[1] + 1, wnp.ncommits) + 1):
+                ctl_db.guarded(ctx, f"noprov:crash@{k}", lambda k=k: crash_case(ctx, wnp, k, cases))
+            for k in range(rng_np[0], rng_np[1] + 1):
+                ctl_db.guarded(ctx, f"noprov:fault@{k}", lambda k=k: fault_case(ctx, wnp, k, "commit", cases))
         for wi, w in enumerate(workloads):
             cases.append(w.clean)
             full = (wi == 0) or thorough
